@@ -6,5 +6,6 @@ CONSTANTS
   Bug = "none"
   Emit = TRUE
   Samples = 3000
+  EmitMod = 1
 INVARIANTS InvVisit EmitInv
 CHECK_DEADLOCK FALSE
